@@ -34,8 +34,8 @@ def _load(module, cls):
     return getattr(importlib.import_module(module), cls)
 
 
-def e1_job(module, cls, cfg, caps):
-    """Runs in a worker. Returns a plain dict."""
+def e1_job(module, cls, cfg, caps, nproc=None):
+    """Runs in a worker (nproc None) or at top level with its own pool of nproc workers. Returns a plain dict."""
     from . import tsx
 
     t0 = time.time()
@@ -52,7 +52,8 @@ def e1_job(module, cls, cfg, caps):
                 samples=[], distinct_obs=0, wall=time.time() - t0)
             return out
         res = tsx.explore(drv, h, max_states=caps.get("max_states"), max_depth=caps.get("max_depth"),
-                          replay_cap=caps.get("replay_cap", 48))
+                          replay_cap=caps.get("replay_cap", 48),
+                          parallel=(nproc, module, cls, cfg) if nproc else None)
         viols = []
         for v in res.violations:
             viols.append({
@@ -94,6 +95,14 @@ def run_jobs(jobs, nproc=None, chunksize=1, maxtasks=None):
     with ctx.Pool(min(nproc, len(jobs)), maxtasksperchild=maxtasks) as pool:
         for idx, r in pool.imap_unordered(_call, list(enumerate(jobs)), chunksize):
             out[idx] = r
+    return out
+
+
+def run_big(jobs, nproc=None):
+    """Runs E1 jobs one after the other, each with a level-parallel BFS over nproc workers."""
+    out = []
+    for _, _, kw in jobs:
+        out.append(e1_job(nproc=nproc or NCPU, **kw))
     return out
 
 
